@@ -116,6 +116,33 @@ def run(chk):
     chk.bounded('timestamp objects re-used across objects and spec versions', list(reuse_cases()), check_reuse, classify=lambda c: (c[1], c[3], c[4]),
                 bound='every versioned object type of both versions (minimal form) x 4 instants (0, 1, 3, 6 fraction digits) x 4 donors (2.1 / 2.0 created, 2.1 valid_from, aware datetime)')
 
+    # ---- nested values handed over as ready-made library objects of ANOTHER class than the slot is for: refused, or converted so that what is emitted is valid
+    def wrong_class_cases():
+        for V, ver in ((stix2.v21, '2.1'), (stix2.v20, '2.0')):
+            tlp = lambda: V.TLPMarking(tlp='red'); stmt = lambda: V.StatementMarking(statement='s')
+            er = lambda: V.ExternalReference(source_name='s', url='http://x'); kc = lambda: V.KillChainPhase(kill_chain_name='k', phase_name='p')
+            ic = {'identity_class': 'individual'} if ver == '2.0' else {}
+            yield (ver, 'marking-definition: definition_type statement, definition a TLP marking object', lambda: V.MarkingDefinition(definition_type='statement', definition=tlp()))
+            yield (ver, 'marking-definition: definition_type tlp, definition a statement marking object', lambda: V.MarkingDefinition(definition_type='tlp', definition=stmt()))
+            yield (ver, 'marking-definition: definition_type tlp, definition a TLP object with an unknown colour', lambda: V.MarkingDefinition(definition_type='tlp', definition=V.TLPMarking(tlp='purple')))
+            yield (ver, 'external_references holding a kill-chain-phase object', lambda: V.Identity(name='n', external_references=[kc()], **ic))
+            yield (ver, 'kill_chain_phases holding an external-reference object', lambda: V.Malware(name='m', kill_chain_phases=[er()], **({'is_family': False} if ver == '2.1' else {'labels': ['bot']})))
+            yield (ver, 'extensions: ntfs-ext slot holding an archive-ext object', lambda: V.File(name='f', extensions={'ntfs-ext': V.ArchiveExt(contains_refs=(['file--' + G.UUID] if ver == '2.1' else ['0']))}))
+            yield (ver, 'granular_markings holding an external-reference object', lambda: V.Identity(name='n', granular_markings=[er()], **ic))
+            yield (ver, 'bundle member that is an embedded (non top-level) object', lambda: V.Bundle(objects=[er()]))
+
+    def check_wrong_class(case):
+        ver, what, mk = case
+        try: o = mk()
+        except Exception as ex:
+            if O.family(ex): return None
+            return (f'fault-escape#{type(ex).__name__}', f'{ver} {what}: {type(ex).__name__}: {ex}', {})
+        out = json.loads(o.serialize()); errs = T.validate(out, ver, 'objects')
+        try: stix2.parse(o.serialize(), version=ver)
+        except Exception as ex: errs = errs + [f'the library refuses its own output: {type(ex).__name__}: {str(ex)[:100]}']
+        if errs: return (f'fault#ready-made object of another class:{what.split(":")[0]}', f'{ver} {what} was accepted in strict mode and emitted {json.dumps(out)[:200]}: {errs[:2]}', {'output': out})
+    chk.bounded('ready-made nested objects of another class than the slot is for', list(wrong_class_cases()), check_wrong_class, classify=lambda c: c[:2], bound='8 slots x both spec versions')
+
     def fault_cases():
         for ver, label, cat, d in cc:
             if not (label.endswith(':minimal') or label.endswith(':all-optional')): continue
